@@ -41,6 +41,8 @@ CONSTANTS Depths,      \* nesting depths explored, subset of 1..3
           Bindings,    \* how the plain parameter of the producers is bound (see MArgs/GArgs)
           VarModes,    \* private `variables` of the producer template: "none", "priv" (a name nobody else uses),
                        \* "shadow" (called g, like the parameter g of every workflow that calls it)
+          EntryModes,  \* sources of the entry point's arguments explored: subset of {"off", "on"}; "on": every combination of
+                       \* entrypoint args x override (none / partial / full / empty / unknown name) x default (with / without)
           Muts,        \* single-fault mutations (see Build); "none" must not be listed here
           MutNamings,  \* naming schemes the mutations are applied to
           Full,        \* TRUE: full product of the dimensions; FALSE: Bindings vary only for the canonical spelling
@@ -77,7 +79,9 @@ Info(n) == CASE n = "foo-I"      -> [st |-> 0, b |-> "foo", k |-> 1, dg |-> FALS
 
 ---------------------------------------------------------------------------
 (* 2. Namespace model                                                      *)
-(*  ns = [entry, eargs, wfs, comps]                                         *)
+(*  ns = [entry, eargs, ovr, wfs, comps]                                    *)
+(*  eargs: the args of entrypoint.execute[0]; ovr = [given, args]: the arguments the caller of the compiler lays    *)
+(*  over them (API: override_entrypoint_args; package load: the `global` section of the user variables file)       *)
 (*  wf  = [name, params, steps, exec]   steps: <<[name, tmpl]>> (the `steps` dictionary, ordered)                 *)
 (*                                      exec : <<[target, args]>> (the `execute` list), args: <<[n, v]>>          *)
 (*  comp = [name, params, vars, args]   args: the value of command.arguments; vars: <<[n, v]>> the private         *)
@@ -140,6 +144,11 @@ ChildEnv(n, tmpl, args, env, pp) ==
 
 EmptyEnv == [q \in {} |-> <<>>]
 
+(* The arguments of the entry instance: override > entrypoint args > declared default (ChildEnv); an argument the  *)
+(* override does not mention keeps its entrypoint value.                                                           *)
+EntryArgs(n) == IF n.ovr.given THEN n.ovr.args \o SelectSeq(n.eargs, LAMBDA a : a.n \notin ArgNames(n.ovr.args))
+                ELSE n.eargs
+
 (* 3.2 Structural errors: everything that can be decided on the text of the templates reachable from the        *)
 (* entrypoint, before any value is resolved.                                                                      *)
 ParRefs(val)  == {val[i].s : i \in {j \in DOMAIN val : val[j].k = "par"}}
@@ -184,10 +193,10 @@ EntryErrs(n) ==
     IF ~(HasWf(n, n.entry) \/ HasComp(n, n.entry)) THEN {Err("unknown entry template", {Loc("entrypoint", "", -1)})}
     ELSE LET ps == ParamsOf(n, n.entry)
          IN {Err("entrypoint argument for unknown parameter", {Loc("entrypoint", "", -1)}) :
-                a \in ArgNames(n.eargs) \ ParamNames(ps)}
+                a \in ArgNames(EntryArgs(n)) \ ParamNames(ps)}
             \cup {Err("entry parameter without value", {Loc(IF HasWf(n, n.entry) THEN "workflows" ELSE "components", n.entry, -1),
                                                          Loc("entrypoint", "", -1)}) :
-                p \in {x \in DOMAIN ps : ~ps[x].hasD /\ ps[x].n \notin ArgNames(n.eargs)}}
+                p \in {x \in DOMAIN ps : ~ps[x].hasD /\ ps[x].n \notin ArgNames(EntryArgs(n))}}
 
 (* a component (reachable or not) whose variable is called like one of its own parameters *)
 ConflictErrs(n) == {Err("variable named like a parameter of the component", {Loc("components", n.comps[i].name, -1)}) :
@@ -209,7 +218,7 @@ WalkSteps(n, w, i, path, env) ==
          IN Walk(n, t, path \o <<e.target>>, ChildEnv(n, t, e.args, env, path), Loc("workflows", w.name, i))
             \o WalkSteps(n, w, i + 1, path, env)
 
-Flatten(n) == Walk(n, n.entry, <<>>, ChildEnv(n, n.entry, n.eargs, EmptyEnv, <<>>), Loc("entrypoint", "", -1))
+Flatten(n) == Walk(n, n.entry, <<>>, ChildEnv(n, n.entry, EntryArgs(n), EmptyEnv, <<>>), Loc("entrypoint", "", -1))
 
 (* 3.4 Producers.  An absolute reference <s1/../sn> denotes the component instance whose path is the longest      *)
 (* prefix of it; the remaining segments are the path of a file below the producer's working directory.            *)
@@ -362,7 +371,9 @@ BuildWf(c, k) ==
                                                [] c.vr = "priv"          -> "prodV"
                                                [] c.vr = "shadow"        -> "prodG"
                                                [] OTHER                  -> "prod"]
-        pArgs  == (IF mu("unkParRef") THEN <<A("m", <<Par("zz")>>)>> ELSE MArgs(c.bm)) \o Opt(mu("unkArg"), <<A("zz", <<Lit("1")>>)>>)
+        pArgs  == (IF mu("unkParRef") THEN <<A("m", <<Par("zz")>>)>>
+                   ELSE IF c.es.on /\ k = 1 THEN <<A("m", <<Par("g"), Lit("."), Par("e")>>)>>      \* both entry parameters show
+                   ELSE MArgs(c.bm)) \o Opt(mu("unkArg"), <<A("zz", <<Lit("1")>>)>>)
         \* the nested workflow(s)
         pdown  == IF k = 1 THEN PVal(c.pd, <<pname>>, file) ELSE <<Par("p")>>
         wArgs  == Opt(~mu("missingWfArg"), <<A("p", pdown)>>) \o GArgs(c.bm, k)
@@ -414,7 +425,7 @@ BuildWf(c, k) ==
                   \o Opt(mu("execNoStep"), <<[target |-> "ghost", args |-> <<>>]>>)
                   \o Opt(mu("dupExec"),   <<[target |-> pname, args |-> pArgs]>>)
     IN [name   |-> LvlName(k),
-        params |-> WfParams(k) \o Opt(k = 1 /\ c.mut = "missingEntry", <<P("e", FALSE, <<>>)>>),
+        params |-> WfParams(k) \o Opt(k = 1 /\ (c.mut = "missingEntry" \/ c.es.on), <<P("e", FALSE, <<>>)>>),
         steps  |-> steps,
         exec   |-> IF c.ord = "rev" THEN Rev(exec) ELSE exec]
 
@@ -433,8 +444,21 @@ CompTemplates(c) ==
     \* a template whose variable is called like its own parameter is an error wherever it is: only present when mutated
     \o Opt(c.mut = "varShadowsParam", <<[name |-> "prodM", params |-> PM, vars |-> <<V("m", "VM")>>, args |-> <<Lit("-m "), Par("m")>>]>>)
 
+(* entry sources (c.es.on): main has g (default dg) and e (no default); the entrypoint gives g = E (eg) and/or e = EE (ee);   *)
+(* the override, when given (ov), names g = OG (og) and/or e = OE (oe) and/or an unknown parameter zz (oz)                    *)
+EsOff == [on |-> FALSE, eg |-> FALSE, ee |-> FALSE, ov |-> FALSE, og |-> FALSE, oe |-> FALSE, oz |-> FALSE]
+EsAll == {[on |-> TRUE, eg |-> eg, ee |-> ee, ov |-> ov, og |-> og, oe |-> oe, oz |-> oz] :
+             eg \in BOOLEAN, ee \in BOOLEAN, ov \in BOOLEAN, og \in BOOLEAN, oe \in BOOLEAN, oz \in BOOLEAN}
+(* without an override nothing can be named by it; at most ONE fault per namespace (unknown name, or e without a value): the   *)
+(* compiler stops at the first fault it meets, which of two independent faults it reports is not part of the property     *)
+EsModes == {e \in EsAll : (e.ov \/ ~(e.og \/ e.oe \/ e.oz)) /\ ~(e.oz /\ ~(e.ee \/ e.oe))}
+EsValid(e) == ~e.on \/ ((e.ee \/ e.oe) /\ ~e.oz)
 Build(c) == [entry |-> IF c.mut = "unkEntry" THEN "nosuch" ELSE "main",
-             eargs |-> EArgs(c.bm) \o Opt(c.mut = "entryUnkArg", <<A("zz", <<Lit("1")>>)>>),
+             eargs |-> (IF c.es.on THEN Opt(c.es.eg, <<A("g", <<Lit("E")>>)>>) \o Opt(c.es.ee, <<A("e", <<Lit("EE")>>)>>) ELSE EArgs(c.bm))
+                       \o Opt(c.mut = "entryUnkArg", <<A("zz", <<Lit("1")>>)>>),
+             ovr   |-> [given |-> c.es.ov,
+                        args  |-> Opt(c.es.og, <<A("g", <<Lit("OG")>>)>>) \o Opt(c.es.oe, <<A("e", <<Lit("OE")>>)>>)
+                                  \o Opt(c.es.oz, <<A("zz", <<Lit("1")>>)>>)],
              wfs   |-> [k \in 1..c.d |-> BuildWf(c, k)],
              comps |-> CompTemplates(c)]
 
@@ -449,7 +473,11 @@ Canon(c) == c.sp = "bareT" /\ c.pd = "bare"
 (* vr: variable mode; cl, cx: length of the dataflow cycle and number of extra consumers of cycle members (dataCycle only) *)
 Choice(d, reuse, ord, nm, sp, pd, bm, mut, ml, vr, cl, cx) ==
     [d |-> d, reuse |-> reuse, ord |-> ord, nm |-> nm, sp |-> sp, pd |-> pd, bm |-> bm, mut |-> mut, ml |-> ml,
-     vr |-> vr, cl |-> cl, cx |-> cx]
+     vr |-> vr, cl |-> cl, cx |-> cx, es |-> EsOff]
+(* entry sources x depth: the value an entry parameter ends up with is forwarded down the call chain (binding mode fwd) *)
+EntryChoices ==
+    IF "on" \notin EntryModes THEN {}
+    ELSE {[Choice(d, 0, "fwd", "dist", "bareT", "bare", "fwd", "none", 0, "none", 0, 0) EXCEPT !.es = e] : d \in Depths, e \in EsModes}
 ValidChoices ==
     {c \in {Choice(d, reuse, ord, nm, sp, pd, bm, "none", 0, vr, 0, 0) :
                d \in Depths, reuse \in Reuses, ord \in Orders, nm \in Namings, sp \in Spellings, pd \in PassDowns, bm \in Bindings,
@@ -469,7 +497,7 @@ MutChoices ==
     {c \in {Choice(d, reuse, ord, nm, "bareT", "bare", "dflt", "dataCycle", ml, "none", cl, cx) :
                d \in Depths, reuse \in Reuses \cap {0, 1}, ord \in Orders, nm \in MutNamings, ml \in 1..3, cl \in {2, 3}, cx \in {0, 1, 2}} :
         "dataCycle" \in Muts /\ c.reuse < c.d /\ c.ml \in 1..c.d}
-Choices == ValidChoices \cup MutChoices
+Choices == ValidChoices \cup MutChoices \cup EntryChoices
 
 ---------------------------------------------------------------------------
 (* 5. State machine                                                        *)
@@ -524,7 +552,10 @@ NoParamLeft == Compiled => \A i \in DOMAIN flat :
 (* checked for the plain parameter m of the producers against the binding mode of the family (independent of     *)
 (* Resolve: the expected text is written down per mode)                                                           *)
 Text(v) == [j \in DOMAIN v |-> v[j].s]
-ExpectedM(c, k) == CASE c.bm = "dflt" -> <<"dm">>
+EsG(e) == IF e.og THEN "OG" ELSE IF e.eg THEN "E" ELSE "dg"       \* override > entrypoint > default
+EsE(e) == IF e.oe THEN "OE" ELSE "EE"
+ExpectedM(c, k) == CASE c.es.on   -> IF k = 1 THEN <<EsG(c.es), ".", EsE(c.es)>> ELSE <<EsG(c.es)>>
+                     [] c.bm = "dflt" -> <<"dm">>
                      [] c.bm = "lit"  -> <<"lit">>
                      [] c.bm = "fwd"  -> <<"E">>
                      [] c.bm = "dfwd" -> <<"dg">>
@@ -567,7 +598,9 @@ RelationInduced == Compiled => \A i \in DOMAIN flat : \A r \in InstRefs(flat[i])
 
 (* the family is what it claims to be: the unmutated part is valid, a mutation makes the namespace invalid       *)
 (* (except where the generic semantics makes it harmless: the parent's producer is also a sibling's name)         *)
-ValidPartCompiles == (ch.mut = "none" /\ phase # "src") => Compiled
+ValidPartCompiles == (ch.mut = "none" /\ phase # "src" /\ EsValid(ch.es)) => Compiled
+(* an entry parameter without default that neither source sets, or an override naming an unknown parameter *)
+EntrySourcesReject == (phase # "src" /\ ~EsValid(ch.es)) => phase = "rejected"
 Harmless(c) == c.mut = "nonSibling" /\ c.ml > 1 /\ PName(c.nm, c.ml - 1) = PName(c.nm, c.ml)
 MutationsReject == (ch.mut # "none" /\ phase # "src" /\ ~Harmless(ch)) => (phase = "rejected" \/ \A e \in out.errs : e.soft)
 RejectedHasLocation == phase = "rejected" => (out.errs # {} /\ \A e \in out.errs : e.alts # {})
